@@ -228,10 +228,7 @@ struct Arr {
             });
             return bad;
         };
-        // freshly constructed storage is value-initialised
-        if (auto b = compare_all("after construction")) {
-            return b;
-        }
+        // (the contents of freshly constructed storage are not part of this property: nothing is read before it is written)
         // ---- (b) distinct fill
         for_box(c.ext, [&](const std::vector<uint64_t> & cc) {
             auto & r = v.at(lib_coord(cc));
